@@ -6,7 +6,7 @@
    character index i"; [Split p s l] / [RSplit p s l] are the derivations of
    Rust's str::split / rsplit (successive first / last matches), [split],
    [splitn], [rsplitn] their fuelled executable forms used by the model. *)
-From RJ Require Import Base.Outcome Base.F64 Model.StrFns Proofs.StrFns_proofs.
+From RJ Require Import Base.Outcome Base.F64 Model.StrFns Proofs.StrFns_proofs Proofs.StrFns_char_proofs.
 From Coq Require Import List Floats.SpecFloat.
 Import ListNotations.
 
@@ -121,6 +121,13 @@ Theorem C18_splitLimitR_last_n : forall s sep rs k, sep <> [] -> RSplit sep s rs
   split_limit_r_cps s sep (Some (N.of_nat (S k))) =
     Ok (rev (if (length rs <=? S k)%nat then rs else firstn k rs ++ [join sep (rev (skipn k rs))])).
 Proof. exact splitLimitR_last_n. Qed.
+
+(* std.splitLimitR is upstream's definition: reverse string and separator, splitLimit,
+   reverse the pieces and their order back *)
+Theorem C18_splitLimitR_mirror : forall s sep k l', sep <> [] ->
+  split_limit_cps (rev s) (rev sep) (Some (N.of_nat (S k))) = Ok l' ->
+  split_limit_r_cps s sep (Some (N.of_nat (S k))) = Ok (rev (map (@rev N) l')).
+Proof. exact splitLimitR_mirror. Qed.
 
 Theorem C18_rsplit_exists_clean : forall s sep, sep <> [] ->
   exists rs, RSplit sep s rs /\ join sep (rev rs) = s /\
@@ -237,6 +244,7 @@ Print Assumptions C18_lstrip_spec.
 Print Assumptions C18_rstrip_spec.
 Print Assumptions C18_splitLimit_first_n.
 Print Assumptions C18_splitLimitR_last_n.
+Print Assumptions C18_splitLimitR_mirror.
 Print Assumptions C18_rsplit_exists_clean.
 Print Assumptions C18_splitLimit_join.
 Print Assumptions C18_splitLimitR_join.
